@@ -8,9 +8,10 @@ THEOREMS = SC.THEOREMS + [
 PARTIAL = SC.PARTIAL
 COMPONENTS = SC.COMPONENTS
 RULE = ('scaled assets over captured real base problems (SimpleContract, Contract with takes, Storage 1|2 nodes, Transport, ExtendedTransport, MultiCommodity, Plant, OrderBook incl. orders outside the horizon) and structured assets over captured inner portfolios; the scaled asset with an own window (start / end / both; inside, straddling, covering, outside the horizon) in 45% of the scaled cases, over bases with and without a window of their own; oracles: fixed scale = base with all capacities * s/norm on the window of the base intersected with the own window of the scaled asset, minus fixed costs over the own window of the scaled asset, free scale >= every fixed scale and = the reported scale, structured vs flat portfolio (value, external dispatch); '
+        'the objects of every case built in a way drawn from the seed - one shared Node object per name / a fresh Node(name) at every use (every asset, inner asset and the structured asset\'s own nodes) / the whole portfolio sent through to_json + load_from_json / inner portfolio and base made of deep copies - the correspondence and the oracles unchanged (nodes are identified by name), the references (flat portfolio, rescaled base) built with shared nodes; '
         'non-trivial = oracle compared a solved pair; distinct by case hash')
 ASSUMPTIONS = ['values compared with tolerance 2e-6 relative']
-EXPLANATION = 'theorems about the models of ScaledAsset / StructuredAsset on arbitrary base problems; correspondence on captured real base problems; equivalent-portfolio oracles on the real code'
+EXPLANATION = 'theorems about the models of ScaledAsset / StructuredAsset on arbitrary base problems; correspondence on captured real base problems; equivalent-portfolio oracles on the real code; both on objects built with shared Node objects, with a Node object per use, re-loaded from JSON or deep-copied (the models know nodes by name only)'
 
 
 def scenarios(seed, tier):
@@ -24,7 +25,7 @@ def run_case(case, drv):
     try:
         import numpy as np
         from .. import scen, impl
-        portf, tg, prices, nodes = scen.build(case['scn'])
+        portf, tg, prices, nodes = SC.build_variant(case['scn'], case.get('build'))
         with impl.Quiet():
             op = portf.setup_optim_problem(prices, tg)
             c_only = portf.setup_optim_problem(prices, tg, costs_only=True)
